@@ -1,7 +1,224 @@
 import ConfModel.Driver.Common
+import ConfModel.Model.RawBody
+import ConfModel.Spec.RawBody
+import ConfModel.Model.Convert
+import ConfModel.Model.Base64
 namespace ConfModel.Driver.C17
-open Lean ConfModel.Driver
+open Lean ConfModel.Driver ConfModel.RawBody ConfModel.RawBodySpec
 
-def handle : Handler := fun op _inp _impl => bad ("C17: unknown op " ++ op)
+/-- the compression parameter, instantiated with what the real compressors wrote for the
+payloads of this definition (`oracle` of the harness line) -/
+structure EncRow where
+  comp : Nat
+  data : Bytes
+  enc : Option Bytes
+  rt : Bool
+
+def parseOracle (j : Json) : List EncRow :=
+  (arr j).map fun e =>
+    let enc := if isNull (field e "enc") then none else some (unhex (str (field e "enc")))
+    EncRow.mk (nat (field e "comp")) (unhex (str (field e "data"))) enc (bool (field e "rt"))
+
+def compressOf (rows : List EncRow) : Compress := fun c d =>
+  match rows.find? (fun r => r.comp == c && r.data == d) with
+  | some r => r.enc
+  | none => none
+
+def parsePayload (j : Json) : Option Contents :=
+  if isNull j then none else
+  let kind := str (field j "kind")
+  some (Contents.mk (if kind == "none" then none else some (unhex (str (field j "data")))) (nat (field j "comp")))
+
+def parseItems (j : Json) : List Item :=
+  (arr j).map fun it =>
+    let len := if isNull (field it "length") then none else some (nat (field it "length"))
+    Item.mk (nat (field it "flags")) len (parsePayload (field it "payload"))
+
+def parseOp (j : Json) : Op :=
+  match str (field j "k") with
+  | "w" => .write (unhex (str (field j "data")))
+  | "h" => .writeHeader (nat (field j "code"))
+  | "f" => .flush
+  | _ => .setRaw ⟨nat (field j "status"), unhex (str (field j "body"))⟩
+
+def evStr : Ev → String
+  | .header c => "h:" ++ toString c
+  | .body b => "w:" ++ hex b
+  | .flush => "f"
+
+def resStr : Res → String
+  | .passed => "handler" | .swallowed => "handler" | .accepted => "accepted" | .refused => "refused"
+
+/-- the recorder does not log empty writes -/
+def wireStr (evs : List Ev) : List String := (evs.filter (fun e => e != .body [])).map evStr
+
+structure Hdr where
+  name : String
+  values : List String
+
+def parseHdrs (j : Json) : List Hdr := (arr j).map fun h => ⟨str (field h "n"), strList (field h "v")⟩
+
+def canonS (s : String) : String := String.ofList (ConfModel.Convert.canon s.toList)
+
+/-- all values given for a (canonical) name, in order -/
+def givenFor (hs : List Hdr) (k : String) : List String :=
+  (hs.filter (fun h => canonS h.name == k)).flatMap (·.values)
+
+def valuesOf (hs : List Hdr) (k : String) : List String :=
+  (hs.filter (fun h => h.name == k)).flatMap (·.values)
+
+/-- the body a raw definition specifies: model (with error threading) and declarative -/
+def bodyModel (compress : Compress) (body : Json) : Bytes × Bool :=
+  match str (field body "kind") with
+  | "unary" => match writeMessage compress (parsePayload (field body "unary")) with
+    | some b => (b, false) | none => ([], true)
+  | "stream" => let w := writeStream compress (parseItems (field body "stream")); (w.bytes, w.failed)
+  | _ => ([], false)
+
+def bodySpec (compress : Compress) (body : Json) : Option Bytes :=
+  match str (field body "kind") with
+  | "unary" => payloadOf compress (parsePayload (field body "unary"))
+  | "stream" =>
+    let items := parseItems (field body "stream")
+    if items.all (itemOk compress) then some (streamBytes compress items) else none
+  | _ => some []
+
+def panicked (impl : Json) : Bool := !(isNull (field impl "panic"))
+
+def handle : Handler := fun op inp impl =>
+  if panicked impl then { agree := false, holds := false, why := "panic: " ++ str (field impl "panic") } else
+  match op with
+  | "msg" =>
+    let rows := parseOracle (field impl "oracle")
+    let compress := compressOf rows
+    let p := parsePayload (field inp "payload")
+    let out := unhex (str (field impl "out"))
+    let err := bool (field impl "err")
+    let m := writeMessage compress p
+    let spec := payloadOf compress p
+    -- exactly the data under the requested compression (which the real decompressor turns back
+    -- into the data); an unsupported compression is an error and writes nothing
+    let holds := (match spec with | some b => !err && out == b | none => err && out.isEmpty) && rows.all (fun r => r.enc.isNone || r.rt)
+    { agree := (match m with | some b => !err && out == b | none => err && out.isEmpty), holds := holds,
+      nontrivial := (p.bind (·.data)).isSome, model := (match m with | some b => Json.str (hex b) | none => Json.null),
+      why := if holds then "" else "message body is not the specified data under the specified compression" }
+  | "stream" =>
+    let rows := parseOracle (field impl "oracle")
+    let compress := compressOf rows
+    let items := parseItems (field inp "items")
+    let out := unhex (str (field impl "out"))
+    let err := bool (field impl "err")
+    let m := writeStream compress items
+    let allOk := items.all (itemOk compress)
+    let honest := lengthsHonest compress items
+    let spec := streamBytes compress items
+    -- exactly the specified envelopes; decodable back into the specified frames when lengths are honest;
+    -- malformed definitions are refused with everything before the bad item written
+    let holds :=
+      (if allOk then !err && out == spec && (!honest || decodeStream out == some (framesOf compress items))
+       else err && (streamBytes compress (goodPrefix compress items)).isPrefixOf out)
+      && rows.all (fun r => r.enc.isNone || r.rt)
+    { agree := out == m.bytes && err == m.failed, holds := holds,
+      nontrivial := items.length > 0 && allOk, model := Json.mkObj [("out", hex m.bytes), ("err", m.failed)],
+      cls := if !allOk then "malformed" else if honest then "honest" else "lying-length",
+      why := if holds then "" else "stream body is not the specified sequence of envelopes" }
+  | "arb" =>
+    let ops := (arr (field inp "ops")).map parseOp
+    let implWire := strList (field impl "wire")
+    let implRes := strList (field impl "results")
+    let (s, rs) := run {} ops
+    let mWire := wireStr (finish s)
+    let specWire := wireStr (wireSpec ops)
+    let specRes := (resultsSpec ops).map resStr
+    let holds := implWire == specWire && implRes == specRes
+    { agree := implWire == mWire && implRes == rs.map resStr, holds := holds,
+      nontrivial := ops.any (fun o => !isHandler o) && ops.any isHandler, model := toJson mWire,
+      cls := match ops with | [] => "empty" | o :: _ => if isHandler o then "normal" else "raw",
+      why := if holds then "" else "wire is neither exactly the handler's output nor exactly the raw response" }
+  | "rawresp" =>
+    let rows := parseOracle (field impl "oracle")
+    let compress := compressOf rows
+    let pre := (arr (field inp "pre")).map parseOp
+    let post := (arr (field inp "post")).map parseOp
+    let rawMode := pre.isEmpty
+    let implErr := str (field impl "err")
+    let status := nat (field impl "status")
+    let hdrs := parseHdrs (field impl "headers")
+    let trls := parseHdrs (field impl "trailers")
+    let body := unhex (str (field impl "body"))
+    let given := parseHdrs (field inp "headers")
+    let givenT := parseHdrs (field inp "trailers")
+    let handlerH := parseHdrs (field inp "handler")
+    let (mBody, mFailed) := bodyModel compress (field inp "body")
+    let results := strList (field impl "results")
+    if rawMode then
+      let wantStatus := if nat (field inp "status") == 0 then 200 else nat (field inp "status")
+      let hdrOk := given.all (fun h => valuesOf hdrs (canonS h.name) == givenFor given (canonS h.name))
+      let trlOk := givenT.all (fun h => valuesOf trls (canonS h.name) == givenFor givenT (canonS h.name))
+      -- nothing the handler set (unless the definition itself gives that name)
+      let noHandler := handlerH.all (fun h => given.any (fun g => canonS g.name == canonS h.name) || (valuesOf hdrs (canonS h.name)).isEmpty)
+      let bodyOk := match bodySpec compress (field inp "body") with
+        | some b => body == b
+        | none => true   -- malformed stream definition: whatever was written before the bad item
+      let accepted := results == ["accepted"] ++ post.map (fun _ => "handler")
+      let holds := implErr == "" && status == wantStatus && hdrOk && trlOk && noHandler && bodyOk && accepted
+      { agree := implErr == "" && body == mBody && status == wantStatus && accepted, holds := holds,
+        nontrivial := !given.isEmpty || !givenT.isEmpty, cls := "raw:" ++ str (field inp "proto"),
+        model := Json.mkObj [("status", wantStatus), ("body", hex mBody), ("bodyFailed", mFailed)],
+        why := if holds then "" else
+          if implErr != "" then "raw response could not be read: " ++ implErr
+          else if status != wantStatus then "status"
+          else if !hdrOk then "a given header does not carry exactly the given values"
+          else if !trlOk then "a given trailer does not carry exactly the given values"
+          else if !noHandler then "a handler-set header reached the wire"
+          else if !bodyOk then "body is not the given body" else "raw response not accepted" }
+    else
+      -- the handler had started its own response: the raw response must be refused and the wire
+      -- must carry the handler's output only
+      let handlerBody := (pre ++ post).flatMap (fun o => match o with | .write b => b | _ => [])
+      let refused := results == pre.map (fun _ => "handler") ++ ["refused"] ++ post.map (fun _ => "handler")
+      let noRaw := given.all (fun h => handlerH.any (fun g => canonS g.name == canonS h.name) || (valuesOf hdrs (canonS h.name)).all (fun v => !h.values.contains v))
+      let handlerKept := handlerH.all (fun h => valuesOf hdrs (canonS h.name) == givenFor handlerH (canonS h.name))
+      let holds := implErr == "" && refused && body == handlerBody && noRaw && handlerKept
+      { agree := holds, holds := holds, nontrivial := true, cls := "normal:" ++ str (field inp "proto"),
+        model := Json.mkObj [("body", hex handlerBody)],
+        why := if holds then "" else "handler had started but the response is not exactly the handler's" }
+  | "rawreq" =>
+    let rows := parseOracle (field impl "oracle")
+    let compress := compressOf rows
+    let implErr := str (field impl "err")
+    let (mBody, _) := bodyModel compress (field inp "body")
+    let body := unhex (str (field impl "body"))
+    let hdrs := parseHdrs (field impl "headers")
+    let given := parseHdrs (field inp "headers")
+    let uri := str (field inp "uri")
+    let path := ((uri.splitOn "?").headD "")
+    -- query: the URI's own parameters, then the raw ones, then the encoded ones (base64url if asked)
+    let uriQ : List (String × String) := match uri.splitOn "?" with
+      | [_, q] => (q.splitOn "&").map (fun kv => match kv.splitOn "=" with | [k, v] => (k, hex v.toUTF8.toList) | _ => (kv, ""))
+      | _ => []
+    let rawQ := (parseHdrs (field inp "rawq")).flatMap (fun h => h.values.map (fun v => (h.name, hex v.toUTF8.toList)))
+    let encQ := (arr (field inp "encq")).map fun p =>
+      let bytes := (payloadOf compress (parsePayload (field p "value"))).getD []
+      (str (field p "n"), if bool (field p "base64") then hex (ConfModel.Base64.encodeURLPadded bytes) else hex bytes)
+    let hasQ := !rawQ.isEmpty || !encQ.isEmpty
+    let allQ := uriQ ++ rawQ ++ encQ
+    let keys := asSet (allQ.map (·.1))
+    let wantQ : List (String × List String) := keys.map (fun k => (k, (allQ.filter (·.1 == k)).map (·.2)))
+    let implQ := (parseHdrs (field impl "query")).map (fun h => (h.name, h.values))
+    let unescapedPath := if path == "/a%20b" then "/a b" else path
+    let hdrOk := given.all (fun h => valuesOf hdrs (canonS h.name) == givenFor given (canonS h.name))
+    let noStub := (valuesOf hdrs "X-Stub").isEmpty
+    let holds := implErr == "" && str (field impl "method") == str (field inp "verb") && str (field impl "path") == unescapedPath
+      && implQ == wantQ && hdrOk && noStub && body == mBody && bool (field impl "drained")
+    { agree := holds, holds := holds, nontrivial := hasQ || !given.isEmpty, model := Json.mkObj [("body", hex mBody), ("query", toJson wantQ)],
+      why := if holds then "" else
+        if implErr != "" then "raw request failed: " ++ implErr
+        else if implQ != wantQ then "query parameters differ"
+        else if !hdrOk then "a listed header does not carry exactly the given values"
+        else if body != mBody then "body is not the given body"
+        else if !bool (field impl "drained") then "the stub's request was not drained and closed"
+        else "method, path or stub header" }
+  | _ => bad ("C17: unknown op " ++ op)
 
 end ConfModel.Driver.C17
